@@ -48,8 +48,9 @@ Proof.
 Qed.
 Print Assumptions C20_jacobian_uses_the_generated_state_order.
 
-(* dependency depth: a chain of 21 intermediates needs 21 rounds - the former fixed bound of 20
-   refuses it (computed), the repaired bound (number of intermediates + 1) does not *)
+(* dependency depth: the intermediates are expanded in dependency order first, so one substitution round
+   suffices for a chain of any length (computed for 20 and 40; the code as found at the pinned commit
+   substituted the raw definitions at most 20 times and refused the chain of 20) *)
 Fixpoint chain_name (i : nat) : string :=
   match i with O => "c" | S j => String.append (chain_name j) "x" end.
 Definition chain_ode (n : nat) : ode :=
@@ -62,7 +63,8 @@ Definition chain_ode (n : nat) : ode :=
      o_derivs := [ {| a_name := "ds_dt"; a_expr := EVar (chain_name n); a_comps := [""]; a_unit := None; a_comment := None |} ] |}.
 
 Example C20_depth_beyond_twenty :
-  rhs_matrix (chain_ode 20) 20 = None
+  (exists es, rhs_matrix (chain_ode 20) 20 = Some es)
   /\ (exists es, rhs_matrix (chain_ode 20) (default_tries (chain_ode 20)) = Some es)
-  /\ (exists es, rhs_matrix (chain_ode 40) (default_tries (chain_ode 40)) = Some es).
+  /\ (exists es, rhs_matrix (chain_ode 40) (default_tries (chain_ode 40)) = Some es)
+  /\ (exists es, rhs_matrix (chain_ode 40) 2 = Some es).
 Proof. vm_compute. repeat split; eexists; reflexivity. Qed.
